@@ -155,6 +155,8 @@ def list_binop(op, a, b, t=None):
     t = t or list
     t_seq = (list, tuple)  # TODO: check.
     if isinstance(a, t_seq) and isinstance(b, t_seq):
+        if len(a) == 0 or len(b) == 0:
+            return t()
         if len(a) >= len(b):
             b = wrap_extend(list(b), len(a))
         else:
